@@ -2,25 +2,626 @@ import GluonModel.Infix
 namespace GluonModel.Infix.Proofs
 open GluonModel.Infix
 
-/-! ### `action` versus `okLeft` / `okRight` -/
-
 theorem action_shift_iff (n s : OpMeta) : action n s = .shift ↔ okRight s n := by
   rcases n with ⟨np, nf⟩
   rcases s with ⟨sp, sf⟩
   unfold action okRight
-  cases nf <;> cases sf <;> simp <;> (repeat' split) <;> simp <;> omega
+  cases nf <;> cases sf <;> simp only [] <;> split <;> (try split) <;> simp <;> omega
 
 theorem action_reduce_iff (n s : OpMeta) : action n s = .reduce ↔ okLeft n s := by
   rcases n with ⟨np, nf⟩
   rcases s with ⟨sp, sf⟩
   unfold action okLeft
-  cases nf <;> cases sf <;> simp <;> (repeat' split) <;> simp <;> omega
+  cases nf <;> cases sf <;> simp only [] <;> split <;> (try split) <;> simp <;> omega
 
 theorem action_conflict (n s : OpMeta) (h : action n s = .conflict) :
     s.prec = n.prec ∧ s.fix ≠ n.fix := by
   rcases n with ⟨np, nf⟩
   rcases s with ⟨sp, sf⟩
   unfold action at h
-  cases nf <;> cases sf <;> simp at h <;> (repeat' split at h) <;> simp at h <;> simp <;> omega
+  cases nf <;> cases sf <;> simp only [] at h <;> split at h <;> (try split at h) <;> simp at h <;> simp <;> omega
+
+/-! ### Root conditions -/
+
+def rootL (m : OpMeta) : Tree → Prop
+  | .leaf _ => True
+  | .node _ o _ => match o.info with | none => False | some c => okLeft m c
+
+def rootR (m : OpMeta) : Tree → Prop
+  | .leaf _ => True
+  | .node _ o _ => match o.info with | none => False | some c => okRight m c
+
+theorem WF_node (l : Tree) (o : Op) (r : Tree) :
+    WF (.node l o r) ↔ WF l ∧ WF r ∧ ∃ m, o.info = some m ∧ rootL m l ∧ rootR m r := by
+  rw [WF]
+  cases ho : o.info with
+  | none => simp
+  | some m =>
+    cases l with
+    | leaf a =>
+      cases r with
+      | leaf b => simp [rootL, rootR]
+      | node rl ro rr => cases hro : ro.info <;> simp [rootL, rootR, hro]
+    | node ll lo lr =>
+      cases r with
+      | leaf b => cases hlo : lo.info <;> simp [rootL, rootR, hlo]
+      | node rl ro rr =>
+        cases hlo : lo.info <;> cases hro : ro.info <;> simp [rootL, rootR, hlo, hro]
+
+theorem rootL_node (m : OpMeta) (l : Tree) (o : Op) (r : Tree) (c : OpMeta) (h : o.info = some c) :
+    rootL m (.node l o r) ↔ okLeft m c := by
+  simp [rootL, h]
+
+theorem rootR_node (m : OpMeta) (l : Tree) (o : Op) (r : Tree) (c : OpMeta) (h : o.info = some c) :
+    rootR m (.node l o r) ↔ okRight m c := by
+  simp [rootR, h]
+
+/-! ### Shape invariant and `internal` -/
+
+theorem pushOp_shape (next : Op) (ops : List Op) : ∀ (args : List Tree),
+    args.length = ops.length + 1 →
+    pushOp next args ops ≠ .error .internal ∧
+    ∀ a' o', pushOp next args ops = .ok (a', o') → a'.length = o'.length := by
+  induction ops with
+  | nil =>
+    intro args h
+    simp [pushOp]
+    simpa using h
+  | cons s ops ih =>
+    intro args h
+    unfold pushOp
+    split
+    · simp
+    · split
+      · simp
+      · split
+        · simp
+          simpa using h
+        · simp
+        · split
+          · apply ih
+            simp at h ⊢
+            omega
+          · rename_i hne
+            exfalso
+            match args, h, hne with
+            | [], h, _ => simp at h
+            | [_], h, _ => simp at h
+            | r :: l :: a, _, hne => exact hne r l a rfl
+
+theorem finish_shape (ops : List Op) : ∀ (args : List Tree),
+    args.length = ops.length + 1 → ∃ t, finish args ops = .ok t := by
+  induction ops with
+  | nil =>
+    intro args h
+    match args, h with
+    | [t], _ => exact ⟨t, rfl⟩
+  | cons s ops ih =>
+    intro args h
+    match args, h with
+    | r :: l :: a, h =>
+      rw [finish]
+      apply ih
+      simp at h ⊢
+      omega
+
+theorem run_shape (rest : List (Op × Nat)) : ∀ (args : List Tree) (ops : List Op),
+    args.length = ops.length + 1 → run args ops rest ≠ .error .internal := by
+  induction rest with
+  | nil =>
+    intro args ops h
+    obtain ⟨t, ht⟩ := finish_shape ops args h
+    simp [run, ht]
+  | cons p rest ih =>
+    intro args ops h
+    obtain ⟨o, a⟩ := p
+    have hp := pushOp_shape o ops args h
+    rw [run]
+    split
+    · rename_i e he
+      intro hc
+      injection hc with hc
+      subst hc
+      exact hp.1 he
+    · rename_i a' o' he
+      apply ih
+      have := hp.2 a' o' he
+      simp
+      omega
+
+
+/-! ### Conflicts and undefined operators -/
+
+theorem pushOp_conflict (next : Op) (ops : List Op) : ∀ (args : List Tree) (s n : Op),
+    pushOp next args ops = .error (.conflict s n) →
+    ∃ sm nm, s.info = some sm ∧ n.info = some nm ∧ sm.prec = nm.prec ∧ sm.fix ≠ nm.fix := by
+  induction ops with
+  | nil => intro args s n h; simp [pushOp] at h
+  | cons s' ops ih =>
+    intro args s n h
+    unfold pushOp at h
+    split at h
+    · simp at h
+    · split at h
+      · simp at h
+      · rename_i nm hn _ sm hs
+        split at h
+        · simp at h
+        · rename_i hact
+          simp at h
+          obtain ⟨rfl, rfl⟩ := h
+          have := action_conflict nm sm hact
+          exact ⟨sm, nm, hs, hn, this.1, this.2⟩
+        · split at h
+          · exact ih _ s n h
+          · simp at h
+
+theorem finish_not_conflict (ops : List Op) : ∀ (args : List Tree) (e : Err),
+    finish args ops = .error e → e = .internal := by
+  induction ops with
+  | nil =>
+    intro args e h
+    match args, h with
+    | [], h => simp [finish] at h; exact h.symm
+    | [t], h => simp [finish] at h
+    | _ :: _ :: _, h => simp [finish] at h; exact h.symm
+  | cons s ops ih =>
+    intro args e h
+    match args, h with
+    | [], h => simp [finish] at h; exact h.symm
+    | [t], h => simp [finish] at h; exact h.symm
+    | r :: l :: a, h => rw [finish] at h; exact ih _ e h
+
+theorem run_conflict (rest : List (Op × Nat)) : ∀ (args : List Tree) (ops : List Op) (s n : Op),
+    run args ops rest = .error (.conflict s n) →
+    ∃ sm nm, s.info = some sm ∧ n.info = some nm ∧ sm.prec = nm.prec ∧ sm.fix ≠ nm.fix := by
+  induction rest with
+  | nil =>
+    intro args ops s n h
+    rw [run] at h
+    have := finish_not_conflict ops args _ h
+    simp at this
+  | cons p rest ih =>
+    intro args ops s n h
+    obtain ⟨o, a⟩ := p
+    rw [run] at h
+    split at h
+    · rename_i e he
+      injection h with h
+      subst h
+      exact pushOp_conflict o ops args s n he
+    · exact ih _ _ s n h
+
+/-- All operators on the stack have metadata. -/
+def Defd (ops : List Op) : Prop := ∀ o ∈ ops, o.info ≠ none
+
+theorem pushOp_defd (next : Op) (hn : next.info ≠ none) (ops : List Op) : ∀ (args : List Tree),
+    Defd ops →
+    (∀ u, pushOp next args ops ≠ .error (.undefined u)) ∧
+    ∀ a' o', pushOp next args ops = .ok (a', o') → Defd o' := by
+  induction ops with
+  | nil =>
+    intro args hd
+    simp [pushOp, Defd]
+    exact hn
+  | cons s ops ih =>
+    intro args hd
+    have hs : s.info ≠ none := hd s (by simp)
+    have hd' : Defd ops := fun o ho => hd o (by simp [ho])
+    unfold pushOp
+    split
+    · contradiction
+    · split
+      · contradiction
+      · split
+        · simp
+          intro o ho
+          simp at ho
+          rcases ho with rfl | rfl | ho
+          · exact hn
+          · exact hs
+          · exact hd' o ho
+        · simp
+        · split
+          · exact ih _ hd'
+          · simp
+
+theorem run_defd (rest : List (Op × Nat)) (hr : ∀ p ∈ rest, p.1.info ≠ none) :
+    ∀ (args : List Tree) (ops : List Op), Defd ops →
+    ∀ u, run args ops rest ≠ .error (.undefined u) := by
+  induction rest with
+  | nil =>
+    intro args ops hd u h
+    rw [run] at h
+    have := finish_not_conflict ops args _ h
+    simp at this
+  | cons p rest ih =>
+    intro args ops hd u h
+    obtain ⟨o, a⟩ := p
+    have ho : o.info ≠ none := hr (o, a) (by simp)
+    have hp := pushOp_defd o ho ops args hd
+    rw [run] at h
+    split at h
+    · rename_i e he
+      injection h with h
+      subst h
+      exact hp.1 u he
+    · rename_i a' o' he
+      exact ih (fun p hp => hr p (by simp [hp])) _ _ (hp.2 a' o' he) u h
+
+
+/-! ### The chain represented by a stack state -/
+
+/-- Wrap the chain `p` of the top argument into the pending `(left operand, operator)` pairs. -/
+def ctx : List Tree → List Op → Nat × List (Op × Nat) → Nat × List (Op × Nat)
+  | l :: args, o :: ops, p => ctx args ops ((flatten l).1, (flatten l).2 ++ (o, p.1) :: p.2)
+  | _, _, p => p
+
+theorem ctx_append (args : List Tree) : ∀ (ops : List Op) (p : Nat × List (Op × Nat))
+    (s : List (Op × Nat)),
+    ctx args ops (p.1, p.2 ++ s) = ((ctx args ops p).1, (ctx args ops p).2 ++ s) := by
+  induction args with
+  | nil => intro ops p s; simp [ctx]
+  | cons l args ih =>
+    intro ops p s
+    cases ops with
+    | nil => simp [ctx]
+    | cons o ops =>
+      simp only [ctx]
+      rw [← ih]
+      simp
+
+theorem pushOp_chain (next : Op) (ops : List Op) : ∀ (x : Tree) (args a' : List Tree) (o' : List Op),
+    pushOp next (x :: args) ops = .ok (a', o') →
+    ∃ x' args'' ops'', a' = x' :: args'' ∧ o' = next :: ops'' ∧
+      ctx args'' ops'' (flatten x') = ctx args ops (flatten x) := by
+  induction ops with
+  | nil =>
+    intro x args a' o' h
+    simp [pushOp] at h
+    obtain ⟨rfl, rfl⟩ := h
+    exact ⟨x, args, [], rfl, rfl, rfl⟩
+  | cons s ops ih =>
+    intro x args a' o' h
+    unfold pushOp at h
+    split at h
+    · simp at h
+    · split at h
+      · simp at h
+      · split at h
+        · simp at h
+          obtain ⟨rfl, rfl⟩ := h
+          exact ⟨x, args, s :: ops, rfl, rfl, rfl⟩
+        · simp at h
+        · split at h
+          · rename_i r l args' heq
+            injection heq with h1 h2
+            subst h1 h2
+            obtain ⟨x', args'', ops'', e1, e2, e3⟩ := ih _ _ _ _ h
+            refine ⟨x', args'', ops'', e1, e2, ?_⟩
+            rw [e3]
+            simp [ctx, flatten]
+          · simp at h
+
+theorem finish_chain (ops : List Op) : ∀ (x : Tree) (args : List Tree) (t : Tree),
+    finish (x :: args) ops = .ok t → flatten t = ctx args ops (flatten x) := by
+  induction ops with
+  | nil =>
+    intro x args t h
+    match args, h with
+    | [], h => simp [finish] at h; subst h; simp [ctx]
+    | _ :: _, h => simp [finish] at h
+  | cons s ops ih =>
+    intro x args t h
+    match args, h with
+    | [], h => simp [finish] at h
+    | l :: a, h =>
+      rw [finish] at h
+      rw [ih _ _ _ h]
+      simp [ctx, flatten]
+
+theorem run_chain (rest : List (Op × Nat)) : ∀ (x : Tree) (args : List Tree) (ops : List Op)
+    (t : Tree), run (x :: args) ops rest = .ok t →
+    flatten t = ((ctx args ops (flatten x)).1, (ctx args ops (flatten x)).2 ++ rest) := by
+  induction rest with
+  | nil =>
+    intro x args ops t h
+    rw [run] at h
+    simp [finish_chain ops x args t h]
+  | cons p rest ih =>
+    intro x args ops t h
+    obtain ⟨o, a⟩ := p
+    rw [run] at h
+    split at h
+    · simp at h
+    · rename_i a' o' he
+      obtain ⟨x', args'', ops'', rfl, rfl, e3⟩ := pushOp_chain o ops x args a' o' he
+      rw [ih _ _ _ _ h, ← e3]
+      have := ctx_append args'' ops'' (flatten x') [(o, a)]
+      simp [ctx, flatten, this]
+
+
+/-! ### The well-formedness invariant of the stacks -/
+
+def topShift (m : OpMeta) : List Op → Prop
+  | [] => True
+  | o' :: _ => ∃ m', o'.info = some m' ∧ okRight m' m
+
+def Inv : List Tree → List Op → Prop
+  | [t], [] => WF t
+  | t :: l :: args, o :: ops =>
+    WF t ∧ ∃ m, o.info = some m ∧ rootR m t ∧ rootL m l ∧ topShift m ops ∧ Inv (l :: args) ops
+  | _, _ => False
+
+theorem Inv_WF_top (ops : List Op) (t : Tree) (args : List Tree) (h : Inv (t :: args) ops) :
+    WF t := by
+  cases ops with
+  | nil =>
+    match args, h with
+    | [], h => exact h
+    | _ :: _, h => simp [Inv] at h
+  | cons o ops =>
+    match args, h with
+    | [], h => simp [Inv] at h
+    | _ :: _, h => exact h.1
+
+theorem Inv_reduce (t l : Tree) (args : List Tree) (s : Op) (ops : List Op)
+    (h : Inv (t :: l :: args) (s :: ops)) : Inv (.node l s t :: args) ops := by
+  obtain ⟨ht, m, hs, hR, hL, hts, hinv⟩ := h
+  have hl : WF l := Inv_WF_top _ _ _ hinv
+  have hnode : WF (.node l s t) := (WF_node l s t).2 ⟨hl, ht, m, hs, hL, hR⟩
+  cases ops with
+  | nil =>
+    match args, hinv with
+    | [], _ => exact hnode
+    | _ :: _, hinv => simp [Inv] at hinv
+  | cons o' ops' =>
+    match args, hinv with
+    | [], hinv => simp [Inv] at hinv
+    | l' :: args1, hinv =>
+      obtain ⟨_, m', ho', hR', hL', hts', hinv'⟩ := hinv
+      obtain ⟨m'', ho'', hok⟩ := hts
+      rw [ho'] at ho''
+      injection ho'' with ho''
+      subst ho''
+      exact ⟨hnode, m', ho', (rootR_node m' l s t m hs).2 hok, hL', hts', hinv'⟩
+
+theorem pushOp_inv (next : Op) (nm : OpMeta) (hn : next.info = some nm) (ops : List Op) :
+    ∀ (t : Tree) (args a' : List Tree) (o' : List Op),
+    Inv (t :: args) ops → rootL nm t → pushOp next (t :: args) ops = .ok (a', o') →
+    ∀ a, Inv (.leaf a :: a') o' := by
+  induction ops with
+  | nil =>
+    intro t args a' o' hinv hL h a
+    simp [pushOp] at h
+    obtain ⟨rfl, rfl⟩ := h
+    match args, hinv with
+    | [], hinv => exact ⟨trivial, nm, hn, trivial, hL, trivial, hinv⟩
+    | _ :: _, hinv => simp [Inv] at hinv
+  | cons s ops ih =>
+    intro t args a' o' hinv hL h a
+    match args, hinv with
+    | [], hinv => simp [Inv] at hinv
+    | l :: args0, hinv =>
+      unfold pushOp at h
+      split at h
+      · simp at h
+      · rename_i nm' hn'
+        rw [hn] at hn'
+        injection hn' with hn'
+        subst hn'
+        split at h
+        · simp at h
+        · rename_i sm hs
+          split at h
+          · rename_i hact
+            simp at h
+            obtain ⟨rfl, rfl⟩ := h
+            exact ⟨trivial, nm, hn, trivial, hL, ⟨sm, hs, (action_shift_iff nm sm).1 hact⟩, hinv⟩
+          · simp at h
+          · rename_i hact
+            split at h
+            · rename_i r l' args' heq
+              injection heq with h1 h2
+              injection h2 with h2 h3
+              subst h1 h2 h3
+              exact ih _ _ _ _ (Inv_reduce _ _ _ _ _ hinv)
+                ((rootL_node nm _ s _ sm hs).2 ((action_reduce_iff nm sm).1 hact)) h a
+            · rename_i hne
+              exact (hne _ _ _ rfl).elim
+
+theorem finish_inv (ops : List Op) : ∀ (args : List Tree) (t : Tree),
+    Inv args ops → finish args ops = .ok t → WF t := by
+  induction ops with
+  | nil =>
+    intro args t hinv h
+    match args, hinv, h with
+    | [x], hinv, h => simp [finish] at h; subst h; exact hinv
+    | [], hinv, _ => simp [Inv] at hinv
+    | _ :: _ :: _, hinv, _ => simp [Inv] at hinv
+  | cons s ops ih =>
+    intro args t hinv h
+    match args, hinv, h with
+    | [], hinv, _ => simp [Inv] at hinv
+    | [_], hinv, _ => simp [Inv] at hinv
+    | r :: l :: a, hinv, h =>
+      rw [finish] at h
+      exact ih _ t (Inv_reduce _ _ _ _ _ hinv) h
+
+theorem run_inv (rest : List (Op × Nat)) (hr : ∀ p ∈ rest, p.1.info ≠ none) :
+    ∀ (a : Nat) (args : List Tree) (ops : List Op) (t : Tree),
+    Inv (.leaf a :: args) ops → run (.leaf a :: args) ops rest = .ok t → WF t := by
+  induction rest with
+  | nil =>
+    intro a args ops t hinv h
+    rw [run] at h
+    exact finish_inv _ _ _ hinv h
+  | cons p rest ih =>
+    intro a args ops t hinv h
+    obtain ⟨o, b⟩ := p
+    have ho : o.info ≠ none := hr (o, b) (by simp)
+    obtain ⟨nm, hnm⟩ := Option.ne_none_iff_exists'.1 ho
+    rw [run] at h
+    split at h
+    · simp at h
+    · rename_i a' o' he
+      exact ih (fun p hp => hr p (by simp [hp])) b a' o' t
+        (pushOp_inv o nm hnm ops _ _ _ _ hinv trivial he b) h
+
+
+/-! ### Completeness: running over the tokens of a well-formed tree -/
+
+theorem okLeft_okRight (n m c : OpMeta) (h1 : okLeft n m) (h2 : okRight m c) : okLeft n c := by
+  unfold okLeft at *
+  unfold okRight at h2
+  rcases h1 with h1 | ⟨h1, _, h3⟩ <;> rcases h2 with h2 | ⟨h2, h5, _⟩
+  · left; omega
+  · left; omega
+  · left; omega
+  · rw [h3] at h5; contradiction
+
+theorem okRight_okLeft (s m c : OpMeta) (h1 : okRight s m) (h2 : okLeft m c) : okRight s c := by
+  unfold okRight at *
+  unfold okLeft at h2
+  rcases h1 with h1 | ⟨h1, _, h3⟩ <;> rcases h2 with h2 | ⟨h2, h5, _⟩
+  · left; omega
+  · left; omega
+  · left; omega
+  · rw [h3] at h5; contradiction
+
+theorem rootL_right (nm : OpMeta) (l : Tree) (o : Op) (r : Tree) (hw : WF (.node l o r))
+    (h : rootL nm (.node l o r)) : rootL nm r := by
+  obtain ⟨_, _, m, ho, _, hR⟩ := (WF_node l o r).1 hw
+  have h1 := (rootL_node nm l o r m ho).1 h
+  cases r with
+  | leaf a => trivial
+  | node rl ro rr =>
+    cases hro : ro.info with
+    | none => simp [rootR, hro] at hR
+    | some c =>
+      exact (rootL_node nm rl ro rr c hro).2
+        (okLeft_okRight nm m c h1 ((rootR_node m rl ro rr c hro).1 hR))
+
+theorem rootR_left (sm : OpMeta) (l : Tree) (o : Op) (r : Tree) (hw : WF (.node l o r))
+    (h : rootR sm (.node l o r)) : rootR sm l := by
+  obtain ⟨_, _, m, ho, hL, _⟩ := (WF_node l o r).1 hw
+  have h1 := (rootR_node sm l o r m ho).1 h
+  cases l with
+  | leaf a => trivial
+  | node ll lo lr =>
+    cases hlo : lo.info with
+    | none => simp [rootL, hlo] at hL
+    | some c =>
+      exact (rootR_node sm ll lo lr c hlo).2
+        (okRight_okLeft sm m c h1 ((rootL_node m ll lo lr c hlo).1 hL))
+
+/-- Push the right spine of `t` (pending left operands and operators) onto the stacks. -/
+def spine : Tree → List Tree → List Op → List Tree × List Op
+  | .leaf a, args, ops => (.leaf a :: args, ops)
+  | .node l o r, args, ops => spine r (l :: args) (o :: ops)
+
+theorem finish_spine (t : Tree) : ∀ (args : List Tree) (ops : List Op),
+    finish (spine t args ops).1 (spine t args ops).2 = finish (t :: args) ops := by
+  induction t with
+  | leaf a => intro args ops; rfl
+  | node l o r _ ihr =>
+    intro args ops
+    rw [spine, ihr, finish]
+
+theorem pushOp_spine (n : Op) (nm : OpMeta) (hn : n.info = some nm) (x : Tree) :
+    ∀ (args : List Tree) (ops : List Op), WF x → rootL nm x →
+    pushOp n (spine x args ops).1 (spine x args ops).2 = pushOp n (x :: args) ops := by
+  induction x with
+  | leaf a => intro args ops _ _; rfl
+  | node l o r _ ihr =>
+    intro args ops hw hL
+    obtain ⟨_, hwr, m, ho, _, _⟩ := (WF_node l o r).1 hw
+    have hact : action nm m = .reduce :=
+      (action_reduce_iff nm m).2 ((rootL_node nm l o r m ho).1 hL)
+    rw [spine, ihr _ _ hwr (rootL_right nm l o r hw hL)]
+    conv => lhs; rw [pushOp]
+    simp [hn, ho, hact]
+
+def topR (t : Tree) : List Op → Prop
+  | [] => True
+  | s :: _ => ∃ sm, s.info = some sm ∧ rootR sm t
+
+theorem pushOp_shift (n : Op) (nm : OpMeta) (hn : n.info = some nm) (l r : Tree)
+    (args : List Tree) (ops : List Op) (ht : topR (.node l n r) ops) :
+    pushOp n (l :: args) ops = .ok (l :: args, n :: ops) := by
+  cases ops with
+  | nil => rfl
+  | cons s ops =>
+    obtain ⟨sm, hs, hR⟩ := ht
+    have hact : action nm sm = .shift :=
+      (action_shift_iff nm sm).2 ((rootR_node sm l n r nm hn).1 hR)
+    unfold pushOp
+    simp [hn, hs, hact]
+
+theorem run_tree (t : Tree) : ∀ (args : List Tree) (ops : List Op) (rest : List (Op × Nat)),
+    WF t → topR t ops →
+    run (.leaf (flatten t).1 :: args) ops ((flatten t).2 ++ rest) =
+      run (spine t args ops).1 (spine t args ops).2 rest := by
+  induction t with
+  | leaf a => intro args ops rest _ _; simp [flatten, spine]
+  | node l o r ihl ihr =>
+    intro args ops rest hw ht
+    obtain ⟨hwl, hwr, m, ho, hL, hR⟩ := (WF_node l o r).1 hw
+    have htl : topR l ops := by
+      cases ops with
+      | nil => trivial
+      | cons s ops =>
+        obtain ⟨sm, hs, hsR⟩ := ht
+        exact ⟨sm, hs, rootR_left sm l o r hw hsR⟩
+    simp only [flatten, List.append_assoc, List.cons_append]
+    rw [ihl args ops _ hwl htl, run, pushOp_spine o m ho l args ops hwl hL,
+      pushOp_shift o m ho l r args ops ht]
+    simp only []
+    rw [ihr (l :: args) (o :: ops) rest hwr ⟨m, ho, hR⟩, spine]
+
+/-! ### The five properties -/
+
+theorem reparse_sound (first : Nat) (rest : List (Op × Nat)) (t : Tree)
+    (hd : ∀ p ∈ rest, p.1.info ≠ none)
+    (h : reparse first rest = .ok t) : flatten t = (first, rest) ∧ WF t := by
+  unfold reparse at h
+  constructor
+  · rw [run_chain rest _ _ _ t h]
+    simp [ctx, flatten]
+  · exact run_inv rest hd first [] [] t (by simp [Inv, WF]) h
+
+theorem reparse_complete (t : Tree) (h : WF t) :
+    reparse (flatten t).1 (flatten t).2 = .ok t := by
+  have := run_tree t [] [] [] h trivial
+  rw [List.append_nil] at this
+  rw [reparse, this, run, finish_spine, finish]
+
+theorem reparse_never_internal (first : Nat) (rest : List (Op × Nat)) :
+    reparse first rest ≠ .error .internal :=
+  run_shape rest _ _ (by simp)
+
+theorem reparse_conflict_iff (first : Nat) (rest : List (Op × Nat))
+    (hd : ∀ p ∈ rest, p.1.info ≠ none) :
+    (∃ s n, reparse first rest = .error (.conflict s n)) ↔
+      ¬ ∃ t, flatten t = (first, rest) ∧ WF t := by
+  constructor
+  · rintro ⟨s, n, h⟩ ⟨t, hf, hw⟩
+    have := reparse_complete t hw
+    rw [hf] at this
+    rw [this] at h
+    simp at h
+  · intro hno
+    cases h : reparse first rest with
+    | ok t => exact (hno ⟨t, reparse_sound first rest t hd h⟩).elim
+    | error e =>
+      cases e with
+      | conflict s n => exact ⟨s, n, rfl⟩
+      | undefined u => exact (run_defd rest hd _ _ (by simp [Defd]) u h).elim
+      | internal => exact (reparse_never_internal first rest h).elim
+
+theorem conflict_is_conflict (first : Nat) (rest : List (Op × Nat)) (s n : Op)
+    (h : reparse first rest = .error (.conflict s n)) :
+    ∃ sm nm, s.info = some sm ∧ n.info = some nm ∧ sm.prec = nm.prec ∧ sm.fix ≠ nm.fix :=
+  run_conflict rest _ _ s n h
 
 end GluonModel.Infix.Proofs
